@@ -215,7 +215,13 @@ def make_resource(op, i, asgi):
         ns['on_' + m.lower()] = _responder(asgi, ['route', i, m, None])
     for m in op['mx']:
         ns['on_' + m.lower() + '_x'] = _responder(asgi, ['route', i, m, 'x'])
+    if op.get('falsy'):
+        # a collection-style resource that is currently empty: bool(resource) is False; nothing in the documented
+        # contract asks a resource to be truthy
+        ns['__len__'] = lambda self: 0
     if op.get('inst'):
+        if op.get('falsy'):
+            return type('EmptyShared', (SharedResource,), {'__len__': ns.pop('__len__')})(ns)
         return SharedResource(ns)
     return type('Res%d' % i, (), ns)()
 
@@ -353,6 +359,8 @@ def run_case(case, dirs):
            for i, op in enumerate(case['ops'])):
         labels.add('suffixed_route_registered')
     labels.add('sink_before_static=%s' % case['sbs'])
+    if any(o.get('falsy') for o in case['ops']):
+        labels.add('falsy_resource')
     for pi, method in case['reqs']:
         path = PATHS[pi]
         exp = model.dispatch(method, path)
@@ -506,6 +514,9 @@ def _apps(draw):
     ops = draw(st.permutations(ops))
     if draw(st.integers(0, 3)) == 0:
         ops = [dict(o, inst=True) if o['k'] == 'route' else o for o in ops]
+    if draw(st.integers(0, 5)) == 0:
+        which = draw(st.integers(0, 7))
+        ops = [dict(o, falsy=True) if o['k'] == 'route' and (which >> (j % 3)) & 1 == 0 else o for j, o in enumerate(ops)]
     # half of the requests aim at paths that some registered template matches (generator-side bias only)
     hot = sorted(set(pi for op in ops if op['k'] == 'route' for pi in TEMPLATE_HITS[op['t']]))
     anypath = st.integers(0, len(PATHS) - 1)
@@ -565,6 +576,8 @@ class Subsets(_Base):
                 route = {'k': 'route', 't': TEMPLATES.index('/a'), 'suffix': suffix,
                          'm': sub if suffix is None else rest, 'mx': rest if suffix is None else sub}
                 yield {'sbs': True, 'ops': [{'k': 'sink', 'p': 0}, route], 'reqs': reqs}
+                if bits % 9 == 0:
+                    yield {'sbs': True, 'ops': [{'k': 'sink', 'p': 0}, dict(route, falsy=True)], 'reqs': reqs}
 
 
 SUITES = [Apps(), Subsets()]
